@@ -1,5 +1,6 @@
 import Pm.Daemon
 import Pm.Dev2Proof
+import Pm.InterpSends
 /-! Helper lemmas for C05 (one device cannot disturb the others).
 
 Part 1 (namespace `Pm.Dev2`): a single-run *frame* for one device's share of `dev_post_poll`:
@@ -745,7 +746,6 @@ theorem postPoll_frame (Q : Bytes → Bool) (C L : Nat → Prop) (d : Dev) (env 
     exact ⟨this.plugs.trans hp, this.scripts.trans (h3.2.1.trans h12.scripts), this.addr,
       (StoreFrame.of_eq (h3.2.2.1.trans h12.args)).trans this.store⟩
 
-#print axioms postPoll_frame
 
 /-! ### `_process_setplugstate` / `_process_setresult` restated: first decide *whether and where* to write (this does not
     look at the store or the oracle), then ask the oracle and write -/
